@@ -40,7 +40,8 @@ RULE = ("case = one multi-process run: generated site (3-7 templates, redirects,
         "on one db file; variant grid enumerated exhaustively: {plain, backup file present, backup present + db file absent, "
         "WAL left by a SIGKILLed predecessor} x bootstrap page {present, absent} x k workers (quick 2,3,4,8; thorough 2,4,8,12,16); "
         "per case seeded random: start offsets (0-50 ms, some late 100-300 ms), per-worker delay scale (0/2/8/30 ms per traced line), "
-        "page subsets and orders (Lua-first or shuffled); plus slow-reader cases (one worker holds a get_all_pages() cursor ~6 s "
+        "page subsets and orders (Lua-first or shuffled); plus long-lived-worker cases (one or two workers pause between pages so that they "
+        "stay alive ~7 s after their first Lua use while the others reach their first #invoke later; bootstrap page absent) and slow-reader cases (one worker holds a get_all_pages() cursor ~6 s "
         "while the others do their first Lua use). distinct = variant + cross-worker order of the critical events "
         "(exists?/unlink/rename/connect/schema, bootstrap exists?/add/commit); non-trivial = >=2 workers overlapped inside "
         "create_db or inside the bootstrap check-then-insert window")
@@ -49,6 +50,7 @@ ASSUMPTIONS = [
     "schedules are explored by perturbation (line-level sleeps <= 30 ms, far below SQLite's 5 s busy timeout), not exhaustively; evidence reports the distinct interleavings seen",
     "the WAL-from-killed-predecessor variant is not combined with a backup file (stale -wal after restore is C11's subject)",
     "'stored pages unchanged' when a backup file exists = the pages of the backup file (what a single open serves after its restore)",
+    "long-lived-worker cases: a worker that spends seconds between pages (real per-page work) is ordinary use; lifetimes overlapping by more than the 5 s busy timeout are what makes a write transaction left open by one worker observable in the others",
     "slow-reader cases: holding a get_all_pages() generator open for ~6 s is ordinary use (README iterates pages while workers run); it is what makes the WAL journal mode observable",
     "workers are forked from the shard process (real processes, own Wtp, own sqlite connection); the shard process holds no sqlite connection at fork time",
     "interwiki network fetch stubbed (vf.core.shard.prepare)",
@@ -65,6 +67,7 @@ KEYLINES = {
 CRITICAL = {l for v in KEYLINES.values() for _, l in v}
 BOOT = ("Module:_sandbox_phase1", 828, None, 0, "", "Scribunto")
 RACE = "restore-race(backup exists()->unlink->rename entered by >=2 workers)"
+LONG = 7.0  # seconds a long-lived worker stays alive after its first page (> 5 s busy timeout + start offsets of the others)
 HOLD = 6.3  # seconds the slow reader keeps its cursor open (> 5 s default busy timeout)
 
 
@@ -75,7 +78,8 @@ def floors(tier):
             "oracle.db.integrity": 20 if q else 500,
             "counters.overlap.create_db.runs": 10 if q else 300, "counters.overlap.bootstrap-window.runs": 2 if q else 50,
             "counters.variant.backup": 4, "counters.variant.wal": 4, "counters.variant.bootstrap-absent": 4,
-            "counters.variant.bootstrap-present": 4, "counters.variant.slow-reader": 1, "counters.variant.nodb": 1,
+            "counters.variant.bootstrap-present": 4, "counters.variant.slow-reader": 1, "counters.variant.long-lived-worker": 1,
+            "counters.long-lived.lua-starts-while-bootstrapper-alive>5s": 1, "counters.variant.nodb": 1,
             "counters.bootstrap-row-added.runs": 2, "counters.restore-window-entered-by>=2.runs": 2 if q else 30,
             "sets.interleavings": 25 if q else 700, "sets.k": 4,
             "anchors.core.create_db": 100, "anchors.luaexec.add_empty_sandbox_lua_module": 50,
@@ -110,6 +114,9 @@ def shards(tier, seed):
         for j in range(slow if i < 2 or tier == "thorough" else 0):
             cases.insert(1 + j * (per // max(1, slow)), {"var": "plain", "boot": False, "k": 2 + (i + j) % 3, "slow": True,
                                                           "seed": seed * 1000003 + i * 10007 + 9000 + j})
+        for j in range(slow if i >= 2 or tier == "thorough" else 0):
+            cases.insert(2 + j * (per // max(1, slow)), {"var": "plain", "boot": False, "k": 2 + (i + j) % 3, "long": 1 + (i + j) % 2,
+                                                          "seed": seed * 1000003 + i * 10007 + 9500 + j})
         out.append({"idx": i, "nsh": nsh, "cases": cases, "tier": tier})
     return out
 
@@ -332,6 +339,8 @@ def worker_main(wi, logpath, db, plan, go_r, go_w, ready_w):
                     emit("exc", mono(), title, {"type": "CpuBudget", "msg": "20 s", "frames": [], "phase": "page", "inner": "?"})
                 except BaseException as e:
                     emit("exc", mono(), title, exc_info(e))
+                if plan.get("think"):
+                    time.sleep(plan["think"])      # per-page work outside the package
         sys.settrace(None)
         if ctx is not None:
             try:
@@ -440,7 +449,7 @@ def plans(case):
     rng = random.Random(case["seed"] * 31 + 7)
     k = case["k"]
     lua_pages = [t for t in site.order if site.uses_lua(t)]
-    lua_first = rng.random() < 0.5 or case.get("slow")
+    lua_first = rng.random() < 0.5 or case.get("slow") or case.get("long")
     out = []
     for w in range(k):
         n = len(site.order)
@@ -456,7 +465,17 @@ def plans(case):
         if case.get("slow"):
             offset = 0.35 + rng.random() * 0.4
             scale = rng.choice([0.0, 0.002, 0.008])
-        out.append({"seed": case["seed"] * 131 + w, "offset": offset, "scale": scale, "order": order})
+        think = 0.0
+        if case.get("long"):
+            scale = rng.choice([0.0, 0.002, 0.008])
+            if w < case["long"]:
+                # long-lived: first page needs Lua, then LONG seconds of 'other work' spread over its pages
+                offset = 0.0 if w == 0 else 0.2 + rng.random() * 0.3
+                think = LONG / len(order)
+            else:
+                offset = 0.3 + rng.random() * 0.5
+                think = rng.random() * 0.15
+        out.append({"seed": case["seed"] * 131 + w, "offset": offset, "scale": scale, "order": order, "think": think})
     if case.get("slow"):
         out.append({"seed": 0, "offset": 0.0, "scale": 0.0, "order": [], "role": "reader", "hold": HOLD})
     return out, lua_first
@@ -540,7 +559,7 @@ def _execute(case, obs, base):
     os.close(go_w)     # barrier opens: every worker's read() returns
     os.close(ready_r)
     t_go = time.monotonic()
-    st = wait_all(pids, time.monotonic() + (60 if not case.get("slow") else 75))
+    st = wait_all(pids, time.monotonic() + (75 if case.get("slow") or case.get("long") else 60))
     wall = time.monotonic() - t_go
     if got < len(pl):
         info["harness"].append("only %d of %d workers reached the barrier" % (got, len(pl)))
@@ -554,9 +573,11 @@ def _execute(case, obs, base):
     exc_types = {}
     pages_done = 0
     anch = {}
+    ends = {}
     for w, (plan, lg) in enumerate(zip(pl, logs)):
         status = st.get(pids[w])
         ended = any(r[0] == "end" for r in lg)
+        ends[w] = max([r[1] for r in lg if r[0] == "end"] or [float("inf")])
         seen = {}
         t_in = {}
         for r in lg:
@@ -591,7 +612,7 @@ def _execute(case, obs, base):
                 rd = ref_exc.get(title)
                 if rd is not None and rd["type"] == d["type"] and rd.get("inner") == d.get("inner"):
                     continue   # the single process fails the same way on this page: not a C20 matter
-                anomalies.append(("exc", dict(d, w=w, title=title)))
+                anomalies.append(("exc", dict(d, w=w, title=title, t=r[1])))
             elif r[0] == "page":
                 pages_done += 1
                 title, out = r[2], r[3]
@@ -700,11 +721,30 @@ def _execute(case, obs, base):
         tags.append("wal-from-killed-predecessor")
     if case.get("slow"):
         tags.append("slow-reader")
+    if case.get("long"):
+        tags.append("long-lived-worker")
     boot_tag = "bootstrap-present" if case["boot"] else "bootstrap-absent"
 
+    # bootstrap writes: (worker, time of the add line, time of the commit line or None)
+    boot_add, boot_commit, lua_start = {}, {}, {}
+    for t, w, l in events:
+        if l == "boot.add":
+            boot_add.setdefault(w, t)
+        elif l == "boot.commit":
+            boot_commit.setdefault(w, t)
+        elif l == "boot.exists?":
+            lua_start.setdefault(w, t)
+    late_lua_starts = sum(1 for w, t in lua_start.items()
+                          if any(w2 != w and t0 < t and ends.get(w2, 0) - t >= 5.0 for w2, t0 in boot_add.items()))
     out = []
     symptoms = {}
     for cls, d in anomalies:
+        if cls == "exc" and d.get("sqlite") == "locked":
+            # trace fact: another worker wrote the bootstrap row >= 2 s before this failure, never reached
+            # its commit line before the failure, and was still alive when it happened
+            d["holder_uncommitted"] = any(
+                w2 != d["w"] and d["t"] - t0 >= 2.0 and not (boot_commit.get(w2, float("inf")) < d["t"]) and ends.get(w2, 0) > d["t"] - 0.5
+                for w2, t0 in boot_add.items())
         sig, stags = signature(cls, d, raced, tags, boot_tag)
         if sig == RACE:
             sym = {"exc": "raises:" + str(d.get("type")) + ("(%s)" % d["sqlite"] if d.get("sqlite") else ""),
@@ -717,7 +757,7 @@ def _execute(case, obs, base):
     info.update({"crit": crit, "restorers": restorers, "raced": raced, "ov_create_db": ov_c, "ov_boot": ov_b,
                  "wall": wall, "pages_done": pages_done, "exc_types": exc_types, "anchors": anch, "boot_added": boot_added,
                  "rows": len(before), "lua_first": bool(lua_first), "workers": len(pl), "site": site,
-                 "n_events": len(events), "boot_written": len({w for _, w, l in events if l == "boot.add"}), "race_symptoms": symptoms, "anomaly_classes": sorted({c for c, _ in anomalies})})
+                 "n_events": len(events), "boot_written": len({w for _, w, l in events if l == "boot.add"}), "late_lua_starts": late_lua_starts, "race_symptoms": symptoms, "anomaly_classes": sorted({c for c, _ in anomalies})})
     return out, info
 
 
@@ -733,7 +773,10 @@ def signature(cls, d, raced, tags, boot_tag):
         if sq == "locked":
             # how long the failing statement blocked tells contention that outlasted the busy timeout
             # (seconds) from a connection that does not wait at all
-            return "worker-raises:%s(locked)/%s" % (typ, "after-busy-wait>=2s" if d.get("waited", 0) >= 2.0 else "without-waiting"), []
+            if d.get("waited", 0) >= 2.0:
+                return "worker-raises:%s(locked)/after-busy-wait>=2s%s" % (
+                    typ, "/bootstrap-write-of-a-live-worker-left-uncommitted" if d.get("holder_uncommitted") else ""), []
+            return "worker-raises:%s(locked)/without-waiting" % typ, []
         name = typ + ("(%s)" % sq if sq and sq != "other" else "")
         if sq is None and typ not in ("IntegrityError", "CpuBudget"):
             name += "@" + d.get("inner", "?")
@@ -767,12 +810,14 @@ def case_features(case):
         f.add("wal-from-killed-predecessor")
     if case.get("slow"):
         f.add("slow-reader")
+    if case.get("long"):
+        f.add("long-lived-worker")
     f.add("bootstrap-present" if case["boot"] else "bootstrap-absent")
     return f
 
 
 def case_tag(case):
-    return "%s/%s/k%d%s" % (case["var"], "boot" if case["boot"] else "noboot", case["k"], "/slow" if case.get("slow") else "")
+    return "%s/%s/k%d%s" % (case["var"], "boot" if case["boot"] else "noboot", case["k"], "/slow" if case.get("slow") else ("/long%d" % case["long"] if case.get("long") else ""))
 
 
 def run_shard(spec):
@@ -805,6 +850,9 @@ def run_shard(spec):
         obs.count("variant.bootstrap-" + ("present" if case["boot"] else "absent"))
         if case.get("slow"):
             obs.count("variant.slow-reader")
+        if case.get("long"):
+            obs.count("variant.long-lived-worker")
+            obs.count("long-lived.lua-starts-while-bootstrapper-alive>5s", info["late_lua_starts"])
         if info["lua_first"]:
             obs.count("variant.lua-first")
         obs.count("overlap.create_db.pairs", info["ov_create_db"])
